@@ -58,3 +58,11 @@ add("C10", "H", "explicit-state BFS over API histories of the real Traph (bounde
 add("C14", "H", "explicit-state BFS over API histories of the real Traph (bounded depth, exhaustive) x the complete read-only API menu on every state",
     "On every state of a bounded BFS (file and memory back-ends, roots R0-R4, multi-block stems) every call of the read-only menu (~600 calls per state: every public query, all switch settings, present/absent/diverging LRUs, known/unknown webentities, right/wrong/absent prefixes, pagination chains, partially drained iterators) is bracketed by a byte comparison of both stores.",
     "DESIGN.md 6/C14")
+
+add("C17", "E", "exhaustive enumeration of a bounded LRU grammar + closure of the variation graph (states = LRUs, transitions = variation edges); one fresh real index per class member",
+    "Every one of the 9 288 (thorough: 55 728) words of the grammar and every member of every result is expanded by the real helper: no failure, self first, no duplicate, only the scheme stem / trailing www host change (checked on stems), scheme variation present, and expanding any member gives the same set. Then for each class a page of each member is inserted first into a fresh index and the attached prefix sets are compared.",
+    "DESIGN.md 6/C17")
+add("C18", "F", "enumeration of every prefix of the program-ordered write log (block and byte granular) of every history up to a depth bound, real reopen after each cut",
+    "Every history up to the stated depth over pages (short, 75- and 149-byte stems, automatic webentity with variations), link and crawl batches, webentity creation and rule installation is executed on logging file objects; for every cut inside the last request (and byte cuts of appends) both files are materialised and reopened with the real constructor: either refused with the library's own error for a stated reason (partial block, one store missing) or the whole query battery runs without failure and reports only pages and links (with weights <=) of the completed history.",
+    "DESIGN.md 6/C18", category="fault_enumeration",
+    note="trusted base: CPython 3.12, tmpfs file semantics; fault model exactly as the property states it (program-order prefix of writes, atomic in-place block rewrites, byte-granular appends); OS-level reordering is out of scope")
